@@ -289,3 +289,14 @@ Definition holds_C10_v1_bid (dout din po pi bonus o_before tab paid recv slice :
    bonus paid on top <= the advertised share of it *)
 Definition holds_C10_v1_totals (target coll bonus paid slices bonus_paid : Z) : bool :=
   (paid <=? target) && (slices <=? coll) && (bonus_paid * P18 <=? slices * bonus).
+
+(* custody: what the auction account holds beyond the live auctions' collateral (and, vault auctions, the debt
+   they have collected so far) *)
+Definition holds_C10_v1_custody (residual_c residual_d : Z) : bool := (residual_c =? 0) && (residual_d =? 0).
+
+(* known-finding class C10-F4 (generation-1 LEND auctions): the liquidation module transfers the lot plus the
+   whole advertised bonus into the auction account; the bonus is paid per bid as trunc(slice x bonus), and the
+   bonus share of collateral that is NOT sold (target reached early: the rest goes back to the borrower
+   without it) and the truncation remainders are never paid out or returned.  [funded] = collateral moved into
+   the auction account for the auction(s), [coll] = their OutflowTokenInitAmount, [bonus_paid] = bonus paid *)
+Definition kf_C10_4 (lend : bool) (funded coll bonus_paid : Z) : bool := lend && (coll + bonus_paid <? funded).
